@@ -13,7 +13,7 @@ LEVEL_TEXT = (
     '{<,=,>} (equal and smaller are never rejected); R2 an oversized request of any opcode decodes to ItemTooLarge, '
     "whose handler arm answers 'value too large' (status 3) and reaches no store method; R3 conservation of bytes in "
     'the oversized-item arm of read_frame: (bytes dropped from the connection buffer) + (count handed to the discard '
-    'loop) is the affine expression body_length on every path and the subtraction producing the skip count cannot '
+    'loop) is the affine expression body_length on every path, the buffered part of the body (min(body_length, buffered)) is dropped from the buffer before anything is read off the socket, and the subtraction producing the skip count cannot '
     'underflow; the discard loop ends with Ok only when its counter equals the requested count or on EOF, and every '
     'read in it is capped by the bytes still to skip; R4 the configured limit reaches the codec, composed end to end '
     'through the public constructors: CLI item_size_limit -> MemcacheServerConfig -> MemcacheTcpServer::new -> run -> '
@@ -192,6 +192,12 @@ def r3(ctx):
             tot = simplify_trunc(total)
             ok = tform(tot) == BODY
             rep.sample({"case": case, "dropped": short(dropped, 80), "skip": short(skip_arg, 80)})
+            # ... and the buffered part of the body goes first: what the buffer holds of the body (min(body, buffered)) is
+            # dropped from the buffer, only the rest is read off the socket — bytes of the body left in the buffer would be
+            # parsed as the next request while the discard loop eats the real one
+            exp = ("len0", BUFT) if case == "body>buffered" else BODY
+            first = I.decide_cmp(p.state, "Eq", simplify_trunc(dropped), exp) is True
+            rep.check(first, "buffer-first[%s]" % case, "min(body_length, buffered) bytes are dropped from the buffer before anything is skipped from the socket", "oversized item, %s: %s bytes are dropped from the buffer where %s bytes of the body are buffered — the rest of the buffered body is parsed as the next request and the discard loop swallows the real one" % (case, short(dropped, 60), short(exp, 40)), b.loc())
             rep.check(ok, k, "dropped + skipped = body_length", "oversized item, %s: %s bytes are dropped from the buffer and %s more are skipped from the socket — together %s, not the announced body_length: the following pipelined request is misparsed" % (case, short(dropped, 80), short(skip_arg, 80), short(tot, 100)), b.loc())
         pan = [q for q in I.panic_paths if any(e.kind == "panic" for e in q.events)]
         if pan:
@@ -385,7 +391,7 @@ def r4(ctx):
     rep.analysed(nb)
     C = pl["client"]
     rep.check(C is not None, "plumbing:evaluated", "MemcacheTcpServer::new -> run -> Client::new evaluated", "cannot follow the configuration from MemcacheTcpServer::new to the Client built in the accept loop", nb.loc())
-    if C is not None:
+    for C in pl["clients"]:
         lim = field_of(C, "stream", "codec", "item_size_limit")
         want = F(P("config"), "item_memory_limit")
         rep.check(tform(lim) == want, "connection::new", "the codec of every accepted connection gets the server config's item limit (3rd argument of MemcacheServerConfig::new)", "the codec of an accepted connection is built with limit %s, not the server configuration's item limit: the configured --max-item-size is not the one enforced" % short(lim, 80), safe_loc(f, CLIENT + "::new"))
